@@ -132,6 +132,29 @@ def rules(ctx, db):
                        "each intermediate multishot completion is stored together with a guard that returns its buffer "
                        "to the pool if the stream is dropped before the result is consumed", pm)
         ctx.floor("R3", "io_uring ops selecting a provided buffer", nsel, 8)
+        # hand-over: the function that turns a stored multishot result into the consumer's (result, extra)
+        # must defuse the guard — otherwise the buffer goes back to the kernel while the consumer takes it
+        holders = [a for a in db.adts.values() if a["name"].startswith("compio_driver::sys::op::") and
+                   any(g in fl["adts"] for g in guards for _, fl in db.adt_fields(a)) and a["name"] not in guards]
+        ctx.floor("R3", "types storing a buffer guard", len(holders), 1)
+        for a in holders:
+            handovers = [f for f in db.fns.values() if f.impl and f.impl.get("self_adt") == a["name"] and f.argc >= 1 and
+                         f.locals[1][0] == a["name"] and "compio_driver::sys::extra::Extra" in f.locals[0][0]]
+            ctx.ob("R3", "hand-over-fn-exists:" + oc.short(a["name"]), len(handovers) >= 1,
+                   "a by-value method hands the stored result and its Extra (buffer id) to the consumer")
+            for f in handovers:
+                defuse = False
+                for bb, t in f.calls():
+                    if call_matches(t, r"^core::mem::forget$"):
+                        defuse = True
+                    for g in db.callee_fns(t, expand_traits=False):
+                        if g.impl and g.impl.get("self_adt") in guards and g.argc >= 1 and g.locals[1][0] in guards and \
+                                calls(g, r"ManuallyDrop::<T>::new$"):
+                            defuse = True
+                ctx.ob("R3", "hand-over-defuses-guard:" + f.name, defuse,
+                       "when a multishot result is handed to the consumer (who takes the buffer by id) its guard is "
+                       "defused; if the guard's Drop ran here the buffer would be re-provided to the kernel while the "
+                       "consumer owns it (two owners of one pool buffer)", f)
         lk = [(f, bb) for f, bb, t in db.callers_of(r"BufferGuard::leak$") if not f.blocks[bb]["cl"]]
         for f, bb in lk:
             ctx.ob("R3", "guard-leaked-only-on-hand-over:" + db.root_fn(f).name, db.root_fn(f).short == "into_result",
